@@ -133,6 +133,7 @@ type Cluster struct {
 	logger *zap.Logger
 	mu     sync.Mutex
 	OnReply func(simnet.Call)
+	OnStart func(simnet.Call)
 	fs     *simfs.FS // simulated disk under the append-only-log stores of this cluster
 }
 
@@ -141,6 +142,11 @@ var rpcLogAll = os.Getenv("VERIF_RPCLOG") != ""
 
 func NewCluster(p *Plan) *Cluster {
 	c := &Cluster{Net: simnet.New(p.Net), Plan: p, Slots: make([]*NodeH, len(p.Nodes)), logger: zap.NewNop()}
+	c.Net.OnStart = func(call simnet.Call) {
+		if c.OnStart != nil {
+			c.OnStart(call)
+		}
+	}
 	c.Net.OnReply = func(call simnet.Call) {
 		if c.OnReply != nil {
 			c.OnReply(call)
